@@ -299,6 +299,10 @@ class FileStorage(
 
         self._files = FilePool(self._file_name)
         r = self._restore_index()
+        if r is not None and r[2] >= stop:
+            # Time travel: the index covers transactions that are not to be
+            # seen.  It is only a cache: scan the file up to `stop` instead.
+            r = None
         if r is not None:
             self._used_index = 1  # Marker for testing
             index, start, ltid = r
